@@ -15,4 +15,4 @@ def run(ctx):
     echcommon.echconn_slice(ctx, lambda c: c["first"] != "acc", label="notaccepted")
     # "every later byte": the connection NewConn returns carries no deadline of the context (EchWatch.tla scenarios)
     import c10
-    c10.run_watch(ctx, 2, 64, label="c05w")
+    c10.run_watch(ctx, 8 if ctx.quick else 60, 64, label="c05w")
